@@ -59,6 +59,12 @@ type c13Case struct {
 	// WriteFails: (close) the transport refuses every write from now on (broken towards the
 	// server): the teardown / logout cannot be sent, the channel is closed all the same
 	WriteFails bool `json:"transport_refuses_writes,omitempty"`
+	// MidSend: (cancel-send) the context is not cancelled before the call but from inside the
+	// transport's k-th Write of the request (k = MidSend >= 1): nothing more is written
+	MidSend int `json:"cancelled_during_write_number,omitempty"`
+	// ClosedEarlier: (connclose) the logical channel with this index (not the newest one) was
+	// closed on its own before Conn.Close: the ids of the open channels have a gap
+	ClosedEarlier int `json:"channel_closed_earlier,omitempty"`
 }
 
 // env is one connection with its peer.
@@ -374,7 +380,25 @@ func runCancelSend(c c13Case) *vh.Failure {
 	own, cancelOwn := context.WithCancel(context.Background())
 	defer cancelOwn()
 	want := context.Canceled
-	if c.Conn {
+	writesAfterCancel, cancelledAt := 0, 0
+	if c.MidSend > 0 {
+		n := 0
+		e.pipe.OnWrite(func() {
+			n++
+			if cancelledAt > 0 {
+				writesAfterCancel++
+			}
+			if n == c.MidSend {
+				cancelledAt = n
+				if c.Conn {
+					e.cancel()
+				} else {
+					cancelOwn()
+				}
+			}
+		})
+		defer e.pipe.OnWrite(nil)
+	} else if c.Conn {
 		e.cancel()
 	} else {
 		cancelOwn()
@@ -396,6 +420,24 @@ func runCancelSend(c c13Case) *vh.Failure {
 	})
 	if pan != nil || !ok {
 		return vh.Failf("C13/cancelled-send-blocks", "%v: send with a cancelled context: returned=%v panic=%v", c, ok, pan)
+	}
+	if c.MidSend > 0 {
+		e.pipe.OnWrite(nil)
+		if cancelledAt == 0 {
+			vh.HarnessBug("%v: the request was written with fewer than %d writes", c, c.MidSend)
+		}
+		if writesAfterCancel != 0 {
+			return vh.Failf("C13/cancelled-send-writes", "%v: the context was cancelled during write %d of the request; %d more writes reached the transport afterwards", c, cancelledAt, writesAfterCancel)
+		}
+		if !errors.Is(err, want) {
+			return vh.Failf("C13/cancelled-send-result", "%v: send whose context was cancelled during write %d returned %v", c, cancelledAt, err)
+		}
+		vh.Label("send:cancelled-during-a-write")
+		if c.Packets-c.MidSend >= 2 {
+			vh.Label("send:cancelled-with-two-or-more-packets-to-go")
+			vh.NonTrivial(c.String())
+		}
+		return nil
 	}
 	if n := e.pipe.WrittenLen() - before; n != 0 {
 		return vh.Failf("C13/cancelled-send-writes", "%v: send with an already cancelled context wrote %d bytes", c, n)
@@ -637,6 +679,14 @@ func runConnClose(c c13Case) *vh.Failure {
 		}
 		chans = append(chans, ch)
 	}
+	if c.ClosedEarlier > 0 && c.ClosedEarlier < len(chans)-1 {
+		var err error
+		ok, pan, _ := timed(5*time.Second, func() { err = chans[c.ClosedEarlier].Close() })
+		if !ok || pan != nil || err != nil {
+			return vh.Failf("C13/close", "%v: Close of logical channel %d: ok=%v panic=%v err=%v", c, chans[c.ClosedEarlier].VerifID(), ok, pan, err)
+		}
+		vh.Label("connclose:a-lower-channel-was-closed-earlier")
+	}
 	// state: some packages queued on the last channel (possibly beyond capacity)
 	last := chans[len(chans)-1]
 	e.sendPackages(last.VerifID(), 0, c.Sent, false)
@@ -771,6 +821,13 @@ func genCase(rt *rapid.T, kind string) c13Case {
 		c.Conn = rapid.Bool().Draw(rt, "connctx")
 		c.Until = rapid.Bool().Draw(rt, "queue+sendremaining")
 		c.Packets = rapid.IntRange(1, 4).Draw(rt, "packets")
+		if rapid.Bool().Draw(rt, "midsend") {
+			c.Packets = rapid.IntRange(2, 8).Draw(rt, "packets")
+			c.MidSend = rapid.IntRange(1, c.Packets-1).Draw(rt, "cancelled-during-write")
+			if rapid.Bool().Draw(rt, "early") {
+				c.MidSend = 1
+			}
+		}
 	case "close":
 		sent()
 		c.Peer = rapid.SampledFrom([]string{"now", "now", "late"}).Draw(rt, "peer")
@@ -792,6 +849,10 @@ func genCase(rt *rapid.T, kind string) c13Case {
 		}
 	case "connclose":
 		c.NChan = rapid.IntRange(1, 4).Draw(rt, "channels")
+		if rapid.IntRange(0, 2).Draw(rt, "gap") == 0 {
+			c.NChan = rapid.IntRange(3, 6).Draw(rt, "channels")
+			c.ClosedEarlier = rapid.IntRange(1, c.NChan-2).Draw(rt, "closed-earlier")
+		}
 		c.Logical = false
 		switch rapid.IntRange(0, 2).Draw(rt, "fill") {
 		case 0:
